@@ -123,6 +123,7 @@ type VerifSubSnap struct {
 	Flags        uint8
 	Err          string
 	Refs         map[string]int
+	PendingRefs  map[string]bool // references still loading for an event (not yet counted as sent)
 	Version      uint
 	Type         int
 	Data         json.RawMessage
@@ -186,6 +187,12 @@ func (s *Service) VerifConns() []VerifConnSnap {
 					ss.Refs = make(map[string]int, len(sub.refs))
 					for r, ref := range sub.refs {
 						ss.Refs[r] = ref.count
+						if ref.pending {
+							if ss.PendingRefs == nil {
+								ss.PendingRefs = map[string]bool{}
+							}
+							ss.PendingRefs[r] = true
+						}
 					}
 				}
 				if sub.model != nil {
